@@ -44,8 +44,8 @@ func resDur(d time.Duration) map[string]any {
 	if d == accDef {
 		return map[string]any{"ok": false, "v": []int{}}
 	}
-	if d%time.Second != 0 {
-		return map[string]any{"ok": true, "v": []int{-1, -1, -1, -1}}
+	if d%time.Second != 0 || d < 0 || d/time.Second > 0xffffffff {
+		return map[string]any{"ok": true, "v": []int{-1, -1, -1, -1}} // not the reading of any 4-byte value
 	}
 	return map[string]any{"ok": true, "v": u32b(uint32(d / time.Second))}
 }
